@@ -208,3 +208,33 @@ class Run:
 def read_source(rel):
     with open(os.path.join(REPO, rel)) as f:
         return f.read()
+
+
+def _alg_worker(args):
+    name, expr, budget = args
+    import time
+    from . import alg
+    t0 = time.time()
+    try:
+        st, det = alg.prove_zero(expr, budget=budget)
+    except Exception as ex:
+        st, det = "undecided", {"reason": "sympy error %r" % (ex,)}
+    return name, st, det, time.time() - t0
+
+
+def discharge_alg(items, budget=120):
+    """items: list of (name, sympy expression that must be identically 0, where, kind) -> Verdicts (backend sympy)"""
+    import sympy
+    jobs = [(n, e, budget) for n, e, w, k in items]
+    if len(jobs) < 3:
+        outs = [_alg_worker(j) for j in jobs]
+    else:
+        outs = pool().map(_alg_worker, jobs, chunksize=1)
+    res = {n: (st, det, t) for n, st, det, t in outs}
+    vs = []
+    for n, e, w, k in items:
+        st, det, t = res[n]
+        det = dict(det)
+        det["expr_size"] = sympy.count_ops(e) if hasattr(e, "free_symbols") else 0
+        vs.append(Verdict(n, st, "sympy-" + sympy.__version__, t, k, w, det))
+    return vs
